@@ -393,14 +393,15 @@ def run_cli(ctx, n):
                             'SELECT account, position WHERE account ~ "Nope"'])
         args = [path, query]
         if fmt:
-            args = ['-f', fmt] + args
+            args = (['-f', fmt] if rng.random() < 0.6 else [f'--format={fmt}']) + args
         if numberify:
             args = ['-m'] + args
         if quiet:
             args = ['-q'] + args
-        outpath = os.path.join(tmp, 'out.txt')
+        # the name of the output file says nothing about the format: -f does (default text)
+        outpath = os.path.join(tmp, rng.choice(['out.txt', 'result.csv', 'report.2022.csv', 'table.text', 'noextension', 'x.beancount']))
         if to_file:
-            args = ['-o', outpath] + args
+            args = [rng.choice(['-o', '--output']), outpath] + args
         try:
             runner = CliRunner(mix_stderr=False) if 'mix_stderr' in inspect.signature(CliRunner.__init__).parameters else CliRunner()
         except Exception:  # noqa: BLE001
